@@ -5,7 +5,10 @@ placements of the narrow model coq/Model/ChanFault.v (Props/C13.v: C13_loop,
 C13_listener, C13_once for the configurations that have the two knob values read
 from the source on THIS run -- coq/Gen/GenChanKnobs.v, written by this check before
 the build, worst values when the source's shape is not understood -- C13_workers,
-the per-knob and partial forms, the isolation step theorems), tied to the code by
+the per-knob and partial forms, the isolation step theorems and their composition
+C13_isolation / _wire / _views: every run of the two-connection model, whatever is
+injected on connection a, is matched by a run WITHOUT a that shows the observer of
+connection b the same events, wire bytes included -- Proof/ChanFaultIso2*.v), tied to the code by
   (a) a shape audit: the ast signature (try/except ladders, lock scopes, flag
       tests, the calls that tear down, the do_close arguments, _DISCONNECTED) of
       every method the model transliterates, against the signature the model was
@@ -43,6 +46,7 @@ ASSUMPTIONS = [
     "one worker per channel: with several pool workers the tail of service() after add_task (release of requests_lock, pull_trigger, last_activity) can overlap the next service() of the same channel; these steps touch nothing C13 speaks about and commute to the left, the model runs them first (conformance runs use one pool worker, monitor runs also two)",
     "parser and application are part of the environment (all outcomes)",
     "the shape audit keys on the statements listed in harness/chanfault.WATCH_*; code between two scheduling points touches only what the audit lists",
+    "C13_isolation is a theorem about the model's two connections (possibilistic: for every run there EXISTS a run without the faulted connection with the same view of the other one); the view hides the other connection's labels and the I/O thread's diagnostic label LCaught (it names no connection); descriptor numbers are not reused, the pool has one worker per connection, the trigger's pulled state is not modelled (select may report it at any time), so timing / wake-up interference is outside the statement",
 ]
 
 
